@@ -782,6 +782,8 @@ def err_class(exc) -> str:
         return "attrError"
     if "File ended while still nested" in msg:
         return "nested"
+    if isinstance(exc, ValueError) and msg.startswith("Non-integer (") and "assigned to enumerator" in msg:
+        return "enumValue"
     if "Cannot add procedure calls" in msg:
         return "cannotAddCalls"
     if "can not be abstract" in msg:
@@ -834,7 +836,7 @@ class Real:
         self.n = 0
         self.hangs = 0
 
-    def run(self, files: list[tuple[str, object]], dbg=True, force=False, watchdog=None, disk=None, progress=False):
+    def run(self, files: list[tuple[str, object]], dbg=True, force=False, watchdog=None, disk=None, progress=False, later=False):
         """files: ordered (role name, text|bytes).  Returns an observation dict in which every
         file is called by its role name again; obs["read_order"] is the order in which the
         implementation really started the per-file constructor.
@@ -843,7 +845,10 @@ class Real:
         progress bar of the per-file loop switched on, as a user's run has it (the harness otherwise
         sets FORD_DEBUGGING, which disables it).
         `ford.console.warn` is NOT replaced: the wrapper records the message and what the real
-        function put on the terminal (obs["warn_rendered"])."""
+        function put on the terminal (obs["warn_rendered"]).
+        `later`: when Project() has returned, go on as `ford.main` does - `project.correlate()` - under the same
+        watchdog: obs["later_escaped"] = what came out of it (no handler surrounds that stage: the run would end),
+        obs["later_details"] = what the entities of each registered file refer to afterwards."""
         import shutil
 
         fp, sf = self.fp, self.sf
@@ -933,6 +938,16 @@ class Real:
                 settings = self.Settings(src_dir=[d], preprocess=False, dbg=dbg, force=force)
                 try:
                     proj = fp.Project(settings)
+                    if later:
+                        obs["later_escaped"] = None
+                        try:
+                            proj.correlate()
+                        except (Hang, KeyboardInterrupt):
+                            raise
+                        except BaseException as e:  # noqa
+                            import traceback
+                            obs["later_escaped"] = e
+                            obs["later_tb"] = [f"{Path(fr.filename).name}:{fr.name}" for fr in traceback.extract_tb(e.__traceback__)][-6:]
                 except Hang:
                     obs["hang"] = True
                 except KeyboardInterrupt:
@@ -1010,6 +1025,9 @@ class Real:
                     if fn not in regfiles:
                         stray.append(f"{lst}:{e.name}@{fn}")
             obs["stray_entities"] = stray
+            if later and obs.get("later_escaped") is None:
+                from . import c20late
+                obs["later_details"] = {role.get(f.name, f.name): c20late.later_details(f) for f in proj.files}
         return obs
 
 
@@ -1204,6 +1222,7 @@ def run(tier: str, seed: int, replay: str | None = None) -> int:
     from translate import c20 as tr
     from . import c20rx
     from . import c20diag
+    from . import c20late
 
     rep = Report(PROP, tier, seed)
     lean = lean_prove(PROP, translate=tr.translate, thorough=(tier == "thorough"))
@@ -1675,12 +1694,15 @@ def run(tier: str, seed: int, replay: str | None = None) -> int:
         # ------------------------------------------------------------ the diagnostic channel
         diag_cov = c20diag.run_stream(rep, drv, real, random.Random(seed * 6151 + 11), quick, cases, baselines)
         lap("diagnostics")
+        # ------------------------------------------------------------ enumerator values; INCLUDE in the valid files; correlate
+        late_cov = c20late.run_stream(rep, drv, real, random.Random(seed * 4241 + 17), quick, cases, baselines)
+        lap("enumerators, later stages")
         # ------------------------------------------------------------ e2e: full runs
         n_e2e_done, e2e_fail = e2e_stream(rep, rng, cases, baselines, n_e2e, seed)
         lap("e2e")
     drv.close()
     rep.coverage.update(
-        evaluations=ev_rows + n_cases + n_e2e_done + diag_cov["project_runs"],
+        evaluations=ev_rows + n_cases + n_e2e_done + diag_cov["project_runs"] + late_cov["later_runs"] + late_cov["enum_blocks_compared"],
         distinct_nontrivial=len(distinct),
         rule="a case = good files + corrupted file(s); non-trivial = the bad file is a statement sequence; "
              "distinct by digest of its statement-kind sequence",
@@ -1709,6 +1731,7 @@ def run(tier: str, seed: int, replay: str | None = None) -> int:
         e2e_runs=n_e2e_done,
         patterns_stream=rx_cov,
         diagnostics_stream=diag_cov,
+        later_stages_stream=late_cov,
         seconds_per_stream=stream_s,
         variant=("repaired (a file with print_error reports is rejected when its constructor returns)" if repaired
                  else "asIs (print_error under dbg returns; reported files stay registered)"),
